@@ -995,6 +995,13 @@ def emit_rust(repo, verif_root, ops, smithy, op_names, trait_methods, shapes, ho
                 expr = '[(String::from("color"), String::from("blue"))].into_iter().collect()'
                 sets.append(f"out.{fn} = {wrap(expr)};")
                 exp.append((m["snake"] + ".color", "blue"))
+            elif m["loc"] == "payload" and m["kind"] == "blob":
+                # a streamed body in several chunks, empty ones in the middle and at the end included: the client must read the
+                # concatenation (pseudo member `@body`, compared by the driver with the response body the harness collected)
+                expr = ('s3s::dto::StreamingBlob::wrap(futures::stream::iter(vec![&b"hello "[..], &b""[..], &b"wor"[..], &b""[..], &b""[..], &b"ld"[..], &b""[..]]'
+                        '.into_iter().map(|c| Ok::<_, std::io::Error>(bytes::Bytes::from_static(c)))))')
+                sets.append(f"out.{fn} = {wrap(expr)};")
+                exp.append(("@body", "68656c6c6f20776f726c64"))
         out_sets[meth] = sets
         out_expect[opn] = exp
     R.append("/// what a client must see for the members the recording backend sets in rich-output mode: (operation, [(member, text alternatives)])")
